@@ -20,6 +20,9 @@ CASE_TIMEOUT = 10
 ATOMS = ["a", "b", "c", "f(x)", "f(x, 2)"]
 # call atoms that differ only in the VALUE of a keyword argument are different atoms
 KW_ATOMS = ["h(x, k=1)", "h(x, k=2)", "a", "h(x, m=1)"]
+# ... and call atoms that differ only in the ORDER of their keyword arguments are one atom (Python passes keyword
+# arguments by name); KF-C02-11
+KWPERM_ATOMS = ["h(x, k=1, m=2)", "h(x, m=2, k=1)", "a", "h(x, k=2, m=1)"]
 OPS = ["+", "-", ":", "*", "/"]
 
 
@@ -53,6 +56,12 @@ def _rand_tree(rng, depth):
     return f"{l} {o} {rr}"
 
 
+def _weight(text):
+    import re as _re
+    pw = len(_re.findall(r"\*\*", text))
+    return (text.count("*") - 2 * pw) + 2 * pw + text.count("/")
+
+
 def _rand_sum(rng, depth):
     return " + ".join(_rand_tree(rng, max(0, depth - 1)) for _ in range(rng.randint(1, 4)))
 
@@ -74,6 +83,13 @@ def gen(rng, tier):
         for t in _trees(n, KW_ATOMS, OPS):
             if t.count("h(") >= 2:
                 add(f"y ~ {t}", f"kwtree{n}")
+    for n in range(1, 3):
+        for t in _trees(n, KWPERM_ATOMS, OPS):
+            if t.count("h(") >= 2:
+                add(f"y ~ {t}", f"kwperm{n}")
+    for e in ["h(x, k=1, m=2) + h(x, m=2, k=1)", "h(x, k=1, m=2) + h(x, m=2, k=1) - h(x, k=1, m=2)"]:
+        for g in ["g", "h(g, k=1, m=2) + h(g, m=2, k=1)"]:
+            add(f"y ~ ({e} | {g})", "kwperm-effect")
     for e in ["h(x, k=1) + h(x, k=2)", "0 + h(x, k=1) + h(x, k=2)", "h(x, k=1) + h(x, m=1)"]:
         for g in ["g", "g + h2", "h(g, k=1) + h(g, k=2)"]:
             add(f"y ~ ({e} | {g})", "kweffect")
@@ -120,6 +136,11 @@ def gen(rng, tier):
     n_rand = 50000 if tier == "thorough" else 3000
     for _ in range(n_rand):
         rhs = _rand_tree(rng, rng.randint(1, 6))
+        # the number of terms grows exponentially with the number of products / powers / nestings: expressions with
+        # more than a dozen of them expand to thousands of terms (the implementation's quadratic de-duplication
+        # then takes minutes, which a loaded machine turns into a per-case timeout, not a verdict)
+        while _weight(rhs) > 12:
+            rhs = _rand_tree(rng, rng.randint(1, 6))
         if rng.random() < 0.3:
             eff = rng.choice(["x", "0 + x", "x + z", "1", "x*z", "0 + x + z", "1 + x"])
             rhs += f" + ({eff} | {rng.choice(groupings)})"
@@ -173,6 +194,22 @@ def _strip(e):
     return e
 
 
+def _canon(name):
+    """one spelling per call atom: keyword arguments are passed by name, so their order is not part of the atom"""
+    import ast
+    name = str(name)
+    if "=" not in name:
+        return name
+    try:
+        tree = ast.parse(name, mode="eval")
+    except SyntaxError:
+        return name
+    for n in ast.walk(tree):
+        if isinstance(n, ast.Call):
+            n.keywords.sort(key=lambda k: k.arg or "")
+    return ast.unparse(tree)
+
+
 def _atom_name(e):
     """factor name of an atomic expression, None if not atomic"""
     from formulae import expr as E
@@ -182,7 +219,7 @@ def _atom_name(e):
     if isinstance(e, E.QuotedName):
         return e.expression.lexeme[1:-1]
     if isinstance(e, E.Call):
-        return str(CallResolver(e).resolve())
+        return _canon(CallResolver(e).resolve())
     if isinstance(e, E.Literal) and isinstance(e.value, str):
         return e.value
     return None
@@ -333,13 +370,13 @@ def _impl_sets(m):
         if isinstance(t, Intercept):
             common.add(ICPT)
         elif isinstance(t, Term):
-            common.add(frozenset(str(c.name) for c in t.components))
+            common.add(frozenset(_canon(c.name) for c in t.components))
         else:
             common.add("<neg>")
     group = set()
     for t in m.group_terms:
-        ef = ICPT if isinstance(t.expr, Intercept) else frozenset(str(c.name) for c in t.expr.components)
-        gf = frozenset(str(c.name) for c in t.factor.components)
+        ef = ICPT if isinstance(t.expr, Intercept) else frozenset(_canon(c.name) for c in t.expr.components)
+        gf = frozenset(_canon(c.name) for c in t.factor.components)
         group.add((ef, gf))
     resp = None if m.response is None else m.response.term.name
     return resp, common, group
@@ -375,6 +412,9 @@ def oracle(c):
         return (f"{tag}documented formula {s!r} is rejected ({type(e).__name__}: {str(e)[:80]}); "
                 f"specification: common={_fmt(common)} group={sorted(map(str, group))}")
     iresp, icommon, igroup = _impl_sets(m)
+    if len(list(m.common_terms)) != len(icommon) or len(list(m.group_terms)) != len(igroup):
+        return (f"{tag}{s!r}: the model lists a term twice (terms are a set): common "
+                f"{[str(t.name) for t in m.common_terms]}, group {[str(t.name) for t in m.group_terms]}")
     if iresp != resp:
         return f"{tag}{s!r}: response {iresp!r}, specification {resp!r}"
     if icommon != common:
